@@ -83,6 +83,7 @@ Record config := {
   c_allowed : list bytes;              (* AllowedEncryptedMethods *)
   c_approve : settings -> bool;        (* the application's logon callback *)
   c_fail_saves : list nat;             (* 0-based indices of MessageStorage.Save calls that fail *)
+  c_seqreset : bool;                   (* Opts.MessageBuilders.SequenceResetBuilder is configured *)
   c_settings : settings                (* initial LogonSettings *)
 }.
 
@@ -439,7 +440,11 @@ Definition run_in_handler (cfg : config) (s : sstate) (h : in_handler) (data : b
             match atoi sb with
             | Some seq =>
                 match value_by_tag data tag_MsgType with
-                | Ok _ => (upd_cnt_in s seq, [], true)
+                | Ok mt =>
+                    (* a SequenceReset announces the next number, it has none of its own to record
+                       (only when the optional builder tells the session what a SequenceReset is) *)
+                    if c_seqreset cfg && beq mt msgtype_SequenceReset then (s, [], true)
+                    else (upd_cnt_in s seq, [], true)
                 | _ => (s, [], true)
                 end
             | None => (s, [], true)
